@@ -182,6 +182,9 @@ func (ex *Exec) ApplySchemas() {
 					// this schema alone is still treated at call sites as one without contract (inlined when small)
 					c.Flags["inline"] = true
 				}
+			} else if sc.Flags["transparent"] && c.Synth && !ex.hasActiveClause(c) {
+				// ... also when a blanket schema without clauses gave it an (empty) contract first
+				c.Flags["inline"] = true
 			}
 			for _, cl := range sc.Clauses {
 				exempt := false
@@ -677,4 +680,13 @@ func (ex *Exec) findConstGlobals() {
 		}
 		ex.derivedFacts = append(ex.derivedFacts, fmt.Sprintf("package variable %s.%s is assigned once, by its initialiser, the constant %s", g.Pkg.Pkg.Name(), g.Name(), u.val.Value.ExactString()))
 	}
+}
+
+func (ex *Exec) hasActiveClause(c *Contract) bool {
+	for _, cl := range c.Clauses {
+		if tagActive(cl.Tags, ex.prop) && cl.Kind != "exempt" {
+			return true
+		}
+	}
+	return false
 }
